@@ -20,7 +20,7 @@ ASSUMPTIONS = ["autoescape is off in this fragment; the loopcontrols extension p
 CLAIM = dict(
     category="proof",
     technique="Lean 4 proofs about a reference interpreter for statements and scoping (assignments never leak out of a scope, outer "
-              "scopes are never modified by inner statements, generated-identifier injectivity) + "
+              "scopes are never modified by inner statements, invariance under consistent renaming, generated-identifier injectivity) + "
               "differential rendering of generated statement trees against the interpreter and after consistent renaming",
     text="Theorems (Props/C03.lean), for every program, context, state and fuel of the reference interpreter: run_preserves_outer "
          "— executing any statement list changes at most the innermost scope, every enclosing scope (variables, macros, caller) "
@@ -28,13 +28,15 @@ CLAIM = dict(
          "filter block, macro call, call block and caller() leave ALL scopes exactly as they were (nothing assigned inside is "
          "visible afterwards); inScope_frames / forLoop_frames / callMacroWith_frames (the same for any sub-interpreter); "
          "set_block_binds_only_name; if_shares_scope — the chosen branch runs directly in the current scope; "
+         "render_alpha — renaming every identifier of a program and of the render context by the same injective map changes "
+         "neither output nor error (simulation proof through every statement form; eval_alpha for expressions); "
          "lookup_innermost_first / lookup_falls_through; ident_injective_name — within a scope distinct names get distinct "
          "generated identifiers. Tie: random statement trees (size <= 28 quick / <= 60 thorough) over a pool of 4 variable "
          "names, 2 macros, 1 namespace so that shadowing, conditional assignment, read-before-write and closure capture are "
          "frequent, each rendered on 3 data assignments against the interpreter (output text or exception class), and "
          "re-rendered after consistent renaming to other ASCII, keyword-like and NFKC-stable Unicode identifiers.",
-    note="Trusted: Lean kernel; reference interpreter by correspondence; alpha-invariance of whole programs is checked by re-rendering "
-         "(the theorem covers lookups). Known findings: a nested scope reading a name that an ENCLOSING scope assigns later sees "
+    note="Trusted: Lean kernel; reference interpreter by correspondence; alpha-invariance is a theorem about the interpreter and is "
+         "checked on the implementation by re-rendering. Known findings: a nested scope reading a name that an ENCLOSING scope assigns later sees "
          "undefined instead of the context value; identifiers that differ only by NFKC normalisation alias.",
     design_ref="§5 C03",
 )
